@@ -223,4 +223,253 @@ theorem reshape_cons {T T' : List Nat} {S O N : Nat} (hc : Chg T T' S O N) {A A'
     exact reshape_full hc hp hz (by omega) (by omega) hb h1 hs ho hne
   · exact reshape_consumed hc hp hz (by omega) (by omega) hb h1 h2 hs ho hne
 
+
+theorem store_size_cons (d : NodeData) (p z : Length) (xs : List Nat) (h : z = lengthOf xs) :
+    (store d p z).size = z := by
+  subst h; exact store_size_lengthOf d p xs
+
+/-- An edit whose three positions coincide keeps tiling and total bytes. -/
+theorem noop_tb (c : Tree) (x : Length) (hw : WFb c) :
+    WFb (editTree c { start := x, old_end := x, new_end := x }) ∧
+    tb (editTree c { start := x, old_end := x, new_end := x }) = tb c := by
+  obtain ⟨w, t2, t2', _⟩ := editTree_bytes c { start := x, old_end := x, new_end := x } hw
+    ⟨Nat.le_refl _, Nat.le_refl _⟩
+  refine ⟨w, ?_⟩
+  by_cases hT : Takes (tb c) { start := x, old_end := x, new_end := x }
+  · rw [t2 hT]
+    unfold Takes at hT
+    simp only at hT ⊢
+    omega
+  · exact t2' hT
+
+set_option maxHeartbeats 1600000 in
+mutual
+  theorem editTree_cons : ∀ (t : Tree) (e : Edit) (T T' : List Nat) (S O N A A' : Nat),
+      Chg T T' S O N → WFb t → Cons T t A → Form T T' S O N A A' e → Cons T' (editTree t e) A'
+    | .mk d ks, e, T, T', S, O, N, A, A', hc, hw, hcons, hf => by
+      have hso := hc.so; have hot := hc.ot; have hsn := hc.sn; have hl := hc.len
+      have hcons' := hcons
+      simp only [Cons] at hcons'
+      obtain ⟨hnode, hkids⟩ := hcons'
+      have hr := reshape_cons hc hnode hf
+      obtain ⟨hb, hp, hz⟩ := hnode
+      obtain ⟨hs, ho, hn, hpos⟩ := hf
+      have hsb : e.start.bytes = S - A := by rw [hs]; exact lenS_bytes _ _ _ (by omega)
+      have hob : e.old_end.bytes = O - A := by rw [ho]; exact lenS_bytes _ _ _ (by omega)
+      have hnb : e.new_end.bytes = N - A' := by rw [hn]; exact lenS_bytes _ _ _ (by omega)
+      have hwl : WFbL ks := by
+        cases hw with
+        | leaf _ => exact WFbL.nil
+        | node _ _ _ hk hks _ _ => exact WFbL.cons _ _ hk hks
+      unfold editTree
+      simp only [length_add_bytes]
+      split
+      · rename_i hr0
+        rcases hpos with ⟨h1, h2⟩ | ⟨h1, h2⟩
+        · subst h2
+          exact cons_keep hc _ A hw hcons
+            (by simp only [tb_mk]; rcases hr0 with h | ⟨⟨ha, hb'⟩, hc'⟩ <;> omega)
+        · rw [h2]
+          exact cons_shift hc _ A hw hcons
+            (by rcases hr0 with h | ⟨⟨ha, hb'⟩, hc'⟩ <;> omega)
+      · rename_i hr0
+        simp only [Cons]
+        refine ⟨?_, ?_⟩
+        · obtain ⟨rb, rp, rz⟩ := hr
+          have e1 := store_padding d (reshape d.padding d.size e).1 (reshape d.padding d.size e).2
+          have e2 := store_size_cons d (reshape d.padding d.size e).1 (reshape d.padding d.size e).2 _ rz
+          unfold NodeCons
+          rw [e1, e2]
+          exact ⟨rb, rp, rz⟩
+        · rcases hpos with ⟨h1, h2⟩ | ⟨h1, h2⟩
+          · subst h2
+            exact editKidsA_cons ks _ e.new_end length_zero 0 T T' S O N A A hc hwl hkids
+              (Nat.le_refl _) h1 hs ho hn (lenS_zero T A A (Nat.le_refl _)).symm rfl (fun _ => rfl)
+          · have hn0 : e.new_end = length_zero := by rw [hn]; exact lenS_zero _ _ _ (by omega)
+            have hs0 : e.start = length_zero := by rw [hs]; exact lenS_zero _ _ _ (by omega)
+            rw [h2]
+            exact editKidsB_cons ks _ e.new_end length_zero 0 T T' S O N A A hc hwl hkids
+              (Nat.le_refl _) h1 (by omega) hs ho (lenS_zero T A A (Nat.le_refl _)).symm rfl
+              (hn0.trans hs0.symm)
+
+  /-- Child loop before the inserted text has been attributed to a child: the parent's frame `Ap`
+  and the next child's frame `Al` are at or before the change and do not move. -/
+  theorem editKidsA_cons : ∀ (ks : List Tree) (cx : Ctx) (ne l : Length) (i : Nat) (T T' : List Nat)
+      (S O N Ap Al : Nat),
+      Chg T T' S O N → WFbL ks → ConsL T ks Al → Ap ≤ Al → Al ≤ S →
+      cx.start = lenS T Ap S → cx.oldEnd = lenS T Ap O → ne = lenS T' Ap N → l = lenS T Ap Al →
+      cx.isPureInsertion = decide (cx.oldEnd.bytes = cx.start.bytes) →
+      ((l.bytes = cx.start.bytes ∧ cx.oldEnd.bytes = cx.start.bytes) → i = 0) →
+      ConsL T' (editKids ks cx ne l i) Al
+    | [], _, _, _, _, _, _, _, _, _, _, _, _, _, _, _, _, _, _, _, _, _, _ => by
+      unfold editKids; simp only [ConsL]
+    | c :: rest, cx, ne, l, i, T, T', S, O, N, Ap, Al, hc, hw, hcons, hAp, hAl, hs, ho, hn, hl, hpure, hinv => by
+      have hso := hc.so; have hot := hc.ot; have hsn := hc.sn; have hlen := hc.len
+      cases hw with
+      | cons _ _ hwc hwr =>
+      simp only [ConsL] at hcons
+      obtain ⟨hcc, hcr⟩ := hcons
+      obtain ⟨htot, htb⟩ := hcc.total
+      have hsb : cx.start.bytes = S - Ap := by rw [hs]; exact lenS_bytes _ _ _ (by omega)
+      have hob : cx.oldEnd.bytes = O - Ap := by rw [ho]; exact lenS_bytes _ _ _ (by omega)
+      have hnb : ne.bytes = N - Ap := by rw [hn]; exact lenS_bytes _ _ _ (by omega)
+      have hlb : l.bytes = Al - Ap := by rw [hl]; exact lenS_bytes _ _ _ (by omega)
+      have hl' : length_add l c.totalSize = lenS T Ap (Al + tb c) := by
+        rw [hl, htot, lenS_add T Ap Al (Al + tb c) hAp (by omega)]
+      unfold editKids
+      simp only [length_add_bytes, totalSize_bytes]
+      split
+      · rename_i hcont
+        simp only [ConsL]
+        exact ⟨cons_keep hc c Al hwc hcc (by omega),
+          editKidsA_cons rest cx ne (length_add l c.totalSize) (i + 1) T T' S O N Ap (Al + tb c) hc hwr hcr
+            (by omega) (by omega) hs ho hn hl' hpure
+            (by simp only [length_add_bytes, totalSize_bytes]; omega)⟩
+      · split
+        · rename_i hcont hstop
+          have hbk := stopsAt_bytes _ _ _ _ _ hstop
+          exfalso
+          rcases hbk with hbk | ⟨hb1, hb2, hb3⟩
+          · omega
+          · have := hinv ⟨by omega, by omega⟩
+            omega
+        · rename_i hcont hstop
+          split
+          · rename_i htake
+            rw [hpure] at htake
+            simp only [decide_eq_true_eq] at htake
+            have hform : Form T T' S O N Al Al
+                { start := length_saturating_sub cx.start l
+                  old_end := length_saturating_sub cx.oldEnd l
+                  new_end := length_saturating_sub ne l } :=
+              ⟨by rw [hs, hl]; exact sat_lenS T Ap S Al hAp (by omega) (by omega),
+               by rw [ho, hl]; exact sat_lenS T Ap O Al hAp (by omega) (by omega),
+               by rw [hn, hl, hc.below_eq Ap Al hAl]; exact sat_lenS T' Ap N Al hAp (by omega) (by omega),
+               Or.inl ⟨hAl, rfl⟩⟩
+            have it := editTree_cons c _ T T' S O N Al Al hc hwc hcc hform
+            have hce : EditB { start := length_saturating_sub cx.start l
+                               old_end := length_saturating_sub cx.oldEnd l
+                               new_end := length_saturating_sub ne l } := by
+              unfold EditB; simp only [length_saturating_sub_bytes]; omega
+            obtain ⟨_, t2, _, _⟩ := editTree_bytes c _ hwc hce
+            unfold Takes at t2
+            simp only [length_saturating_sub_bytes] at t2
+            have htb' : Al + tb (editTree c { start := length_saturating_sub cx.start l
+                                              old_end := length_saturating_sub cx.oldEnd l
+                                              new_end := length_saturating_sub ne l })
+                = N + (Al + tb c - O) := by
+              rw [t2 (by omega)]; omega
+            have ihr := editKidsB_cons rest cx cx.start (length_add l c.totalSize) (i + 1) T T' S O N Ap
+              (Al + tb c) hc hwr hcr (by omega) (by omega) (by omega) hs ho hl' hpure rfl
+            simp only [ConsL]
+            refine ⟨it, ?_⟩
+            rw [htb']; exact ihr
+          · rename_i htake
+            rw [hpure] at htake
+            simp only [decide_eq_true_eq] at htake
+            have hx : length_saturating_sub cx.start l = lenS T Al S := by
+              rw [hs, hl]; exact sat_lenS T Ap S Al hAp (by omega) (by omega)
+            have hform : Form T T S S S Al Al
+                { start := length_saturating_sub cx.start l
+                  old_end := length_saturating_sub cx.start l
+                  new_end := length_saturating_sub cx.start l } :=
+              ⟨hx, hx, hx, Or.inl ⟨hAl, rfl⟩⟩
+            have it := editTree_cons c _ T T S S S Al Al (Chg.trivial T S (by omega)) hwc hcc hform
+            obtain ⟨hwc', htbc⟩ := noop_tb c (length_saturating_sub cx.start l) hwc
+            simp only [ConsL]
+            refine ⟨cons_keep hc _ Al hwc' it (by omega), ?_⟩
+            rw [htbc]
+            exact editKidsA_cons rest cx ne (length_add l c.totalSize) (i + 1) T T' S O N Ap (Al + tb c) hc hwr hcr
+              (by omega) (by omega) hs ho hn hl' hpure
+              (by simp only [length_add_bytes, totalSize_bytes]; omega)
+
+  /-- Child loop after the inserted text has been attributed (`edit.new_end = edit.start`): the
+  next child's frame `Al` is at or after the start of the change and moves to `N + (Al − O)`. -/
+  theorem editKidsB_cons : ∀ (ks : List Tree) (cx : Ctx) (ne l : Length) (i : Nat) (T T' : List Nat)
+      (S O N Ap Al : Nat),
+      Chg T T' S O N → WFbL ks → ConsL T ks Al → Ap ≤ Al → S ≤ Al → Al ≤ T.length →
+      cx.start = lenS T Ap S → cx.oldEnd = lenS T Ap O → l = lenS T Ap Al →
+      cx.isPureInsertion = decide (cx.oldEnd.bytes = cx.start.bytes) → ne = cx.start →
+      ConsL T' (editKids ks cx ne l i) (N + (Al - O))
+    | [], _, _, _, _, _, _, _, _, _, _, _, _, _, _, _, _, _, _, _, _, _, _ => by
+      unfold editKids; simp only [ConsL]
+    | c :: rest, cx, ne, l, i, T, T', S, O, N, Ap, Al, hc, hw, hcons, hAp, hSl, hAlT, hs, ho, hl, hpure, hne => by
+      subst hne
+      have hso := hc.so; have hot := hc.ot; have hsn := hc.sn; have hlen := hc.len
+      cases hw with
+      | cons _ _ hwc hwr =>
+      have hcons0 := hcons
+      simp only [ConsL] at hcons
+      obtain ⟨hcc, hcr⟩ := hcons
+      obtain ⟨htot, htb⟩ := hcc.total
+      have hsb : cx.start.bytes = S - Ap := by rw [hs]; exact lenS_bytes _ _ _ (by omega)
+      have hob : cx.oldEnd.bytes = O - Ap := by rw [ho]; exact lenS_bytes _ _ _ (by omega)
+      have hlb : l.bytes = Al - Ap := by rw [hl]; exact lenS_bytes _ _ _ (by omega)
+      have hl' : length_add l c.totalSize = lenS T Ap (Al + tb c) := by
+        rw [hl, htot, lenS_add T Ap Al (Al + tb c) hAp (by omega)]
+      unfold editKids
+      simp only [length_add_bytes, totalSize_bytes]
+      split
+      · rename_i hcont; exfalso; omega
+      · split
+        · rename_i hcont hstop
+          have hbk := stopsAt_bytes _ _ _ _ _ hstop
+          have hO : O ≤ Al := by rcases hbk with hbk | ⟨hb1, _, _⟩ <;> omega
+          exact consL_shift hc (c :: rest) Al (WFbL.cons _ _ hwc hwr) hcons0 hO
+        · rename_i hcont hstop
+          have hx : length_saturating_sub cx.start l = lenS T Al S := by
+            rw [hs, hl]; exact sat_lenS T Ap S Al hAp (by omega) (by omega)
+          have ihr := editKidsB_cons rest cx cx.start (length_add l c.totalSize) (i + 1) T T' S O N Ap
+            (Al + tb c) hc hwr hcr (by omega) (by omega) (by omega) hs ho hl' hpure rfl
+          split
+          · rename_i htake
+            have hform : Form T T' S O N Al (N + (Al - O))
+                { start := length_saturating_sub cx.start l
+                  old_end := length_saturating_sub cx.oldEnd l
+                  new_end := length_saturating_sub cx.start l } :=
+              ⟨hx,
+               by rw [ho, hl]; exact sat_lenS T Ap O Al hAp (by omega) (by omega),
+               by rw [hx, lenS_zero T Al S (by omega), lenS_zero T' (N + (Al - O)) N (by omega)],
+               Or.inr ⟨hSl, rfl⟩⟩
+            have it := editTree_cons c _ T T' S O N Al (N + (Al - O)) hc hwc hcc hform
+            have hce : EditB { start := length_saturating_sub cx.start l
+                               old_end := length_saturating_sub cx.oldEnd l
+                               new_end := length_saturating_sub cx.start l } := by
+              unfold EditB; simp only [length_saturating_sub_bytes]; omega
+            obtain ⟨_, t2, t2', _⟩ := editTree_bytes c _ hwc hce
+            unfold Takes at t2 t2'
+            simp only [length_saturating_sub_bytes] at t2 t2'
+            have htb' : N + (Al - O) + tb (editTree c { start := length_saturating_sub cx.start l
+                                                        old_end := length_saturating_sub cx.oldEnd l
+                                                        new_end := length_saturating_sub cx.start l })
+                = N + (Al + tb c - O) := by
+              by_cases hT : cx.start.bytes - l.bytes < tb c ∨
+                  (cx.start.bytes - l.bytes = tb c ∧ cx.oldEnd.bytes - l.bytes = cx.start.bytes - l.bytes)
+              · rw [t2 hT]; omega
+              · rw [t2' hT]; omega
+            simp only [ConsL]
+            refine ⟨it, ?_⟩
+            rw [htb']; exact ihr
+          · rename_i htake
+            rw [hpure] at htake
+            simp only [decide_eq_true_eq] at htake
+            have hx0 : length_saturating_sub cx.start l = lenS T Al Al := by
+              rw [hx, lenS_zero T Al S (by omega), lenS_zero T Al Al (Nat.le_refl _)]
+            have hform : Form T T Al Al Al Al Al
+                { start := length_saturating_sub cx.start l
+                  old_end := length_saturating_sub cx.start l
+                  new_end := length_saturating_sub cx.start l } :=
+              ⟨hx0, hx0, hx0, Or.inl ⟨Nat.le_refl _, rfl⟩⟩
+            have it := editTree_cons c _ T T Al Al Al Al Al (Chg.trivial T Al hAlT) hwc hcc hform
+            obtain ⟨hwc', htbc⟩ := noop_tb c (length_saturating_sub cx.start l) hwc
+            have h0 : tb c = 0 := by omega
+            simp only [ConsL]
+            refine ⟨cons_transport _ T T' Al (N + (Al - O)) hwc' it ?_ (by omega), ?_⟩
+            · intro a b h1 h2 h3
+              rw [lenS_zero T a b (by omega), lenS_zero T' _ _ (by omega)]
+            · rw [htbc]
+              have : N + (Al - O) + tb c = N + (Al + tb c - O) := by omega
+              rw [this]; exact ihr
+end
+
 end TsVerif.C10
